@@ -108,6 +108,12 @@ func verifTokensHome(c *Client, tag string) {
 // the failed connection (a half-read packet, a parked big message) may leak
 // into the new stream.
 func verifNextConnectionWorks(c *Client, store *verifStore, tag string) {
+	verifNextConnection(c, store, tag)
+}
+
+// verifNextConnection does the same and returns what the client wrote on the
+// new connection after its CONNECT packet.
+func verifNextConnection(c *Client, store *verifStore, tag string) (afterCONNECT []byte) {
 	if store.find(clientIDKey) < 0 {
 		store.put(clientIDKey, verifRecord([]byte{'c'}, 1))
 	}
@@ -128,4 +134,14 @@ func verifNextConnectionWorks(c *Client, store *verifStore, tag string) {
 	}
 	verifAssert(dials == 1, tag+": the next ReadSlices did not dial exactly once")
 	store.faults = saved
+	packets, rest, ok := verifSplit(conn2.wlog)
+	verifAssert(ok && len(rest) == 0 && len(packets) >= 1, tag+": the new connection does not start with whole packets")
+	if !ok || len(packets) == 0 {
+		return nil
+	}
+	verifAssert(packets[0][0] == 0x10, tag+": the new connection does not start with CONNECT")
+	for _, p := range packets[1:] {
+		afterCONNECT = append(afterCONNECT, p...)
+	}
+	return afterCONNECT
 }
